@@ -58,7 +58,8 @@ def required_cells(tier):
               "lit:dec", "lit:oct", "lit:hex", "lit:bin", "lit:suffix-u", "lit:suffix-l", "lit:suffix-ul", "lit:suffix-ll",
               "lit:suffix-ull", "chr:plain", "chr:simple-escape", "chr:octal-escape", "chr:hex-escape",
               "defined:paren", "defined:bare", "identifier-as-zero", "macro-body-unparenthesised",
-              "elif-after-taken/live-parent", "elif-after-taken/dead-parent", "via-file", "oppair:all"]
+              "elif-after-taken/live-parent", "elif-after-taken/dead-parent", "via-file", "oppair:all",
+              "multi-line-comment-inside-condition"]
     return cells
 
 
@@ -226,7 +227,11 @@ def gen_e4():
     yield "PAREN * 2 == 6", env, "E4"
     yield "NEG - NEG == 0", env, "E4"
     yield "2 NEG == 1", env, "E4"          # 2 -1
-    yield "FL + FL2 + FL0 == 0", env, "E4"       # (invocations are C03's subject; cexpr models object-like macros only)
+    yield "FL + FL2 + FL0 == 0", env, "E4"
+    # a macro defined with an empty replacement list expands to nothing (it is not 1, and not 0 either)
+    for e_ in ("EMPTY + 1 == 1", "EMPTY - 1 < 0", "! EMPTY 0", "(EMPTY 1)", "EMPTY EMPTY 2 == 2", "1 EMPTY + EMPTY 1 == 2", "EMPTY + 0",
+               "-EMPTY 1 == -1", "EMPTY defined(EMPTY)", "2 * EMPTY 3 == 6"):
+        yield e_, env, "E4"       # (invocations are C03's subject; cexpr models object-like macros only)
     yield "Z\u00c4HLER * 2 == 6 && gr\u00f6\u00dfe == 2", env, "E4"
     yield "!defined(\u00c9T\u00c9) && d\u00e9fini + 1 == 1", env, "E4"
     yield "defined(Z\u00c4HLER) && defined gr\u00f6\u00dfe", env, "E4"
@@ -668,7 +673,19 @@ def file_path_check(ctx, cases, work, tag):
     for i, (expr, macros, gt) in enumerate(cases):
         for k, v in (macros or {}).items():
             lines.append(f"#define {k} {v}".rstrip())
-        lines.append(f"#if {expr}")
+        # every third condition carries a block comment that spans two physical lines, the first of which ends in '*';
+        # the comment is one space: before the expression or in the middle of it (before a binary operator)
+        cut = next((expr.index(op) for op in (" && ", " || ", " + ", " == ", " < ") if op in expr and "'" not in expr and '"' not in expr), None)
+        if i % 3 == 1 and cut is not None:
+            lines.append(f"#if {expr[:cut]} /* both must hold: *")
+            lines.append(f" * this and that */{expr[cut:]}")
+            acc.cells["multi-line-comment-inside-condition"] += 1
+        elif i % 3 == 2:
+            lines.append("#if /* see below *")
+            lines.append(f"    ***/ {expr}")
+            acc.cells["multi-line-comment-inside-condition"] += 1
+        else:
+            lines.append(f"#if {expr}")
         lines.append(f"cbi_m_t{i};")
         t_line = len(lines)
         lines.append("#else")
@@ -676,7 +693,7 @@ def file_path_check(ctx, cases, work, tag):
         f_line = len(lines)
         lines.append("#endif")
         for k in (macros or {}):
-            lines.append(f"#undef {k}")
+            lines.append("#undef " + k.split("(")[0])
         sites.append((t_line, f_line))
     d = os.path.join(work, "file-" + tag)
     os.makedirs(d, exist_ok=True)
